@@ -92,6 +92,33 @@ fn replay(max_t: usize, syms: Vec<String>) {
         "nontrivial": nontrivial, "mismatches": mism, "first": first, "samples": samples}));
 }
 
+/// stdin: {"l":[..],"cases":[{"p":[..],"t":[..],"m":bool},..]} per literal (TLC: GenKmpInv)
+fn cases() {
+    let (mut evals, mut mism, mut nontriv, mut lits) = (0u64, 0u64, 0u64, 0u64);
+    let mut first: Vec<Value> = vec![];
+    let mut samples: Vec<Value> = vec![];
+    for line in stdin_lines() {
+        let v: Value = match serde_json::from_str(&line) { Ok(v) => v, Err(_) => continue };
+        lits += 1;
+        for c in v["cases"].as_array().unwrap() {
+            let p: Vec<String> = serde_json::from_value(c["p"].clone()).unwrap();
+            let t: Vec<String> = serde_json::from_value(c["t"].clone()).unwrap();
+            let exp = c["m"].as_bool().unwrap();
+            if exp { nontriv += 1; }
+            for map in 0..3 {
+                evals += 1;
+                let (ps, ts) = (render(&p, map), render(&t, map));
+                let got = call(&ps, &ts, map == 1);
+                if got != Ok(exp) {
+                    mism += 1;
+                    if first.len() < 50 { first.push(json!({"pattern": ps, "text": ts, "expected": exp, "got": format!("{:?}", got)})); }
+                } else if samples.len() < 3 && exp && t.len() > 10 { samples.push(json!({"pattern": ps, "text": ts, "match": exp})); }
+            }
+        }
+    }
+    out_line(&json!({"summary": true, "patterns": lits, "texts": 0, "evaluations": evals, "nontrivial": nontriv, "mismatches": mism, "first": first, "samples": samples}));
+}
+
 fn random(n: usize, maxlen: usize) {
     let mut rng = Rng::from_env();
     for _ in 0..n {
@@ -128,6 +155,7 @@ fn main() {
             replay(max_t, syms)
         }
         Some("random") => random(a[2].parse().unwrap(), a[3].parse().unwrap()),
+        Some("cases") => cases(),
         _ => { eprintln!("usage: glob replay|random ..."); std::process::exit(2) }
     }
 }
